@@ -10,4 +10,24 @@ variable {α : Type} [Zero α] [Neg α] [LT α] [DecidableLT α]
 @[inline] def gmin (a b : α) : α := if b < a then b else a
 @[inline] def gclip (a lo hi : α) : α := gmin (gmax a lo) hi
 
+/-- The numpy array operations `thresh.psd_proj` is written with (what each field stands for is fixed here; the
+    generated `Gen.Prox.psdEighArg / psdRecon / psdProjWith` are terms over this record).  `M`: 2-D arrays,
+    `W`: 1-D real arrays (eigenvalues), `α`: the eigenvalue scalar.  Instantiated with exact Gaussian-rational
+    arrays in `Model/C11Psd.lean` (executed) and with Mathlib matrices in `Props/C11Psd.lean` (reasoned about). -/
+structure PsdOps (α M W : Type) where
+  /-- `a + b` -/
+  add : M → M → M
+  /-- `xp.conj(a)` / `a.conjugate()` (entrywise complex conjugate) -/
+  conj : M → M
+  /-- `a.T` -/
+  transpose : M → M
+  /-- `a / k` for an integer literal `k` (entrywise) -/
+  divNat : M → Nat → M
+  /-- `a @ b` -/
+  matmul : M → M → M
+  /-- `a * w` for `a` of shape (n, n) and `w` of shape (n,): broadcast over the last axis, `a[i, j] * w[j]` -/
+  mulCols : M → W → M
+  /-- an elementwise update of a 1-D array (`w[w < 0] = 0` is `mapW (fun w => if w < 0 then 0 else w)`) -/
+  mapW : (α → α) → W → W
+
 end SigpyVerif.C11
